@@ -1103,13 +1103,24 @@ func anchoredBody(s string) (body string, ok bool) {
 	return s[1 : len(s)-1], true
 }
 
+// parseCanonicalUint parses a decimal number written the way a community is
+// rendered: no leading zeros. A pattern such as "0650" or "01" is a valid
+// number but can never match the canonical text, so it must not be promoted
+// to an integer comparison.
+func parseCanonicalUint(s string, bitSize int) (uint64, error) {
+	if len(s) > 1 && s[0] == '0' {
+		return 0, strconv.ErrSyntax
+	}
+	return strconv.ParseUint(s, 10, bitSize)
+}
+
 func parseExactASColonLocal(body string, localBits int) (asn uint16, local uint32, ok bool) {
 	idx := strings.IndexByte(body, ':')
 	if idx <= 0 || idx != strings.LastIndexByte(body, ':') {
 		return 0, 0, false
 	}
-	asn64, err1 := strconv.ParseUint(body[:idx], 10, 16)
-	loc64, err2 := strconv.ParseUint(body[idx+1:], 10, localBits)
+	asn64, err1 := parseCanonicalUint(body[:idx], 16)
+	loc64, err2 := parseCanonicalUint(body[idx+1:], localBits)
 	if err1 != nil || err2 != nil {
 		return 0, 0, false
 	}
@@ -1120,9 +1131,16 @@ func isWildcardASN(lhs string) bool {
 	return lhs == `[0-9]*` || lhs == `[0-9]+` || lhs == `\d*` || lhs == `\d+`
 }
 
+// isWildcardLocal reports whether everything after the first colon of the
+// pattern is a wildcard for the local part. Looking only at the end of the
+// pattern would also accept "^65000:1:.*$", which matches no community at all.
 func isWildcardLocal(s string) bool {
-	s = strings.TrimSuffix(s, "$")
-	return strings.HasSuffix(s, `:\d+`) || strings.HasSuffix(s, `:[0-9]+`) || strings.HasSuffix(s, `:.*`)
+	idx := strings.IndexByte(s, ':')
+	if idx < 0 {
+		return false
+	}
+	rest := strings.TrimSuffix(s[idx+1:], "$")
+	return rest == `\d+` || rest == `[0-9]+` || rest == `.*`
 }
 
 func parseLocalAdminSet(rhs string) (*localAdminBitmap, bool) {
@@ -1131,14 +1149,14 @@ func parseLocalAdminSet(rhs string) (*localAdminBitmap, bool) {
 	switch {
 	case strings.HasPrefix(rhs, "(") && strings.HasSuffix(rhs, ")"):
 		for _, tok := range strings.Split(rhs[1:len(rhs)-1], "|") {
-			n, err := strconv.ParseUint(strings.TrimSpace(tok), 10, 16)
+			n, err := parseCanonicalUint(strings.TrimSpace(tok), 16)
 			if err != nil {
 				return nil, false
 			}
 			locals = append(locals, uint16(n))
 		}
 	default:
-		n, err := strconv.ParseUint(rhs, 10, 16)
+		n, err := parseCanonicalUint(rhs, 16)
 		if err != nil {
 			return nil, false
 		}
@@ -1208,7 +1226,7 @@ func extractLiteralASN(s string) (uint16, bool) {
 	if idx <= 0 {
 		return 0, false
 	}
-	asn, err := strconv.ParseUint(s[start:start+idx], 10, 16)
+	asn, err := parseCanonicalUint(s[start:start+idx], 16)
 	return uint16(asn), err == nil
 }
 
